@@ -49,7 +49,7 @@ Theorem C18_sendtofx_ibc_failure_keeps_nothing :
   forall S consume (deposit to_voucher transfer : S -> result S) s s1 s2 e,
   deposit (consume s) = Ok s1 -> to_voucher s1 = Ok s2 -> transfer s2 = Err e ->
   send_to_fx_ibc_tx S consume deposit to_voucher transfer s = (s, false).
-Proof. intros. eapply stf_failure_keeps_nothing. eapply stf_fails_at_transfer; eauto. Qed.
+Proof. exact stf_transfer_failure_keeps_nothing. Qed.
 Print Assumptions C18_sendtofx_ibc_failure_keeps_nothing.
 
 (* proposal: failure of the message at ANY position, after any number of succeeding messages *)
